@@ -22,7 +22,7 @@ def outcome_eq(a, b):
 def _c06(V, spec_id, group, base):
     o = sym_options(V, group)
     ci = bool(o.get('case_insensitive'))
-    items = sym_items(V, spec_id, limit=limit_for(V, spec_id, group), strs=V.thorough or spec_id != 'onerr')
+    items = sym_items(V, spec_id, limit=limit_for(V, spec_id, group, wide_alias=True), strs=V.thorough or spec_id != 'onerr')
     with V.notrace():
         cd = dcspec.make_class(spec_id, base, dict(o, data_first_search=True))
         cf = dcspec.make_class(spec_id, base, dict(o, data_first_search=False))
